@@ -48,6 +48,17 @@ def safe_execute(mod, scenario, tape=None):
     signal.alarm(RUN_WALL_LIMIT)
     try:
         return mod.execute(scenario, tape)
+    except Exception as e:
+        if type(e).__name__ == "SutHang":
+            # the system under test hung: a liveness violation, not a harness failure
+            return {"violation": {"oracle": "bounded-steps",
+                                  "signature": {"oracle": "bounded-steps", "why": e.reason},
+                                  "detail": "the server never came back (%s)\n%s" % (e.reason, e.where)},
+                    "shape": None, "counters": {"sut_hang": 1}, "digest": "hang", "tape": list(tape or []),
+                    "sim_s": 0.0}
+        if isinstance(e, RunTimeout):
+            return {"harness_error": "timeout: %s" % e}
+        return {"harness_error": "%s: %s\n%s" % (type(e).__name__, e, traceback.format_exc())}
     except RunTimeout as e:
         return {"harness_error": "timeout: %s" % e}
     except BaseException as e:  # noqa
